@@ -403,7 +403,24 @@ def c07(run):
         "acknowledged (R-RESP).")
 
 
+def c11(run):
+    from rules import r_observe
+    P = run.prog('rel')
+    r_observe.run_replace(run, P)
+    r_observe.run_con(run, P)
+    r_observe.run_rst(run, P)
+    run.assumptions = ASSUME_COMMON + ["freshness / ordering of Observe values, 'the last state is eventually notified', NSTART back-pressure and every deregistration route other than "
+                                       "the Reset with a matching queue node are NOT decided; 'the session stays alive while it has observers' is the holder rule of C12"]
+    return run.finish(
+        "Three clauses the statement of C11 names, each visible in the shape of one function on every path: a new subscription is created only after the "
+        "look-up by session and token came out NULL and a subscription found for the same request was deleted (R-OBS-REPLACE, coap_add_observer); a "
+        "notification is made Non-confirmable only below COAP_OBS_MAX_NON consecutive ones (or NON_ALWAYS / the final 4.04) and the counter is reset / "
+        "incremented to match the chosen type before the transmission (R-OBS-CON, coap_notify_observers); a Reset that matches a queued message reaches "
+        "coap_cancel(), which removes the observer (R-OBS-RST, coap_dispatch).")
+
+
 PROPS = {
+    'C11': c11,
     'C07': c07,
     'C02': c02,
     'C14': c14,
@@ -429,6 +446,7 @@ PROPS = {
 # thorough tier: additional build configurations (core/facts.CFGS) in which the property's anchors exist.  Each costs one
 # cmake configure + one extraction per mode.  Configurations that compile the property's code out are not listed.
 VARIANTS = {
+    'C11': ['noepoll', 'noqblock', 'nooscore', 'serveronly'],
     'C07': ['noepoll', 'noqblock', 'nooscore', 'clientonly'],
     'C01': ['smallstack', 'noqblock'],
     'C02': ['noepoll', 'noqblock', 'smallstack', 'serveronly'],
